@@ -33,8 +33,8 @@ RAW_RX = {
 }
 
 
-QUICK_BUDGET = {"cases": 320, "deadline_s": 170, "case_timeout_s": 120, "floors": {"submissions": 478, "start_events_checked": 275, "never_started_checked": 40, "local_enqueues": 100, "pool_spawns": 55}}
-THOROUGH_FACTOR = 36  # thorough = the same workload with 36x the cases (floors scale along)
+QUICK_BUDGET = {"cases": 960, "deadline_s": 170, "case_timeout_s": 120, "floors": {"submissions": 1434, "start_events_checked": 825, "never_started_checked": 120, "local_enqueues": 300, "pool_spawns": 165}}
+THOROUGH_FACTOR = 12  # thorough = the same workload with 12x the cases (floors scale along)
 
 
 def budget(tier):
